@@ -93,7 +93,7 @@ def run_history(md, ext, src, top, path, ops, crash=None):
                 try:
                     do_write(ext, f, src, op[1], op[2], op[3], op[4])
                     fl.append("1")
-                except (ValueError, TypeError, OSError, AssertionError) as e:
+                except Exception as e:  # noqa: BLE001  (a refusal, of whatever type: what the file holds afterwards is what counts)
                     fl.append("0")
         if crash is None:
             f.close()
